@@ -4,12 +4,16 @@ C08 — concurrent model of subscribing with an include predicate while a writer
 
 Threads and their atomic steps (pkg/resource/collection.go):
 
-* the writer thread, one call at a time:
+* writers, any number of them:
   - `commit op`   `Update`/`Add`: `GetAndUpdate` saves under `c.mu.Lock()` and releases the lock; the
-                  event exists but `c.bus.Send` has not run yet (`pend`)
-  - `publish`     the writer's `c.bus.Send(change)` AFTER the lock was released: every listener registered
-                  at that moment receives the event
-  - `deleteNow i` `Delete`: `delete(c.byId, id)` and `c.bus.Send(REMOVE)` both under `c.mu.Lock()`
+                  event exists but `c.bus.Send` has not run yet: it joins the queue `pend`
+  - `publish`     a writer's `c.bus.Send(change)` AFTER the lock was released: every listener registered
+                  at that moment receives the event.  Publications happen in commit order (`pend` is
+                  FIFO): this is C03's `ordered` hypothesis — with several writers the real code can
+                  publish out of commit order, which is C03's known finding, not this property's subject.
+                  A single writer thread satisfies it by construction.
+  - `deleteNow i` `Delete`: `delete(c.byId, id)` and `c.bus.Send(REMOVE)` both under `c.mu.Lock()`; enabled
+                  only when nothing is pending (otherwise it would overtake a pending publication)
 * the subscriber (`Collection.onUpdate`, called by `Pull`):
   - `snapshot`    `c.mu.RLock(); res = c.itemSlice(config)` — the include predicate is evaluated on every
                   stored item with the read lock held
@@ -34,7 +38,7 @@ inductive Sub (ι μ : Type) where
 
 structure Sys (ι μ : Type) where
   items : List (ι × μ)
-  pend : Option (Change ι μ)
+  pend : List (Change ι μ)
   sub : Sub ι μ
   t : Nat
 
@@ -49,7 +53,6 @@ def Sub.isSnapping : Sub ι μ → Bool
   | .snapping _ => true
   | _ => false
 
-/-- deliver a published event to the subscriber if it is registered -/
 def Sub.deliver (s : Sub ι μ) (evs : List (Change ι μ)) : Sub ι μ :=
   match s with
   | .listening seed recv => .listening seed (recv ++ evs)
@@ -59,16 +62,16 @@ variable [DecidableEq ι]
 
 def sysStep (locked : Bool) (p : Option (Pred ι μ)) (s : Sys ι μ) : Step ι μ → Sys ι μ
   | .commit op =>
-    if s.pend.isSome || (locked && s.sub.isSnapping) then s
+    if locked && s.sub.isSnapping then s
     else
       let r := stepOp s.t s.items op
-      { s with items := r.1, pend := r.2, t := s.t + 1 }
+      { s with items := r.1, pend := s.pend ++ r.2.toList, t := s.t + 1 }
   | .publish =>
     match s.pend with
-    | none => s
-    | some c => { s with pend := none, sub := s.sub.deliver [c] }
+    | [] => s
+    | c :: rest => { s with pend := rest, sub := s.sub.deliver [c] }
   | .deleteNow i =>
-    if s.pend.isSome || (locked && s.sub.isSnapping) then s
+    if !s.pend.isEmpty || (locked && s.sub.isSnapping) then s
     else
       let r := stepOp s.t s.items (.delete i)
       { s with items := r.1, sub := s.sub.deliver r.2.toList, t := s.t + 1 }
@@ -84,9 +87,8 @@ def sysStep (locked : Bool) (p : Option (Pred ι μ)) (s : Sys ι μ) : Step ι 
 def sysRun (locked : Bool) (p : Option (Pred ι μ)) (s : Sys ι μ) (sched : List (Step ι μ)) : Sys ι μ :=
   sched.foldl (sysStep locked p) s
 
-def Sys.init (items : List (ι × μ)) : Sys ι μ := ⟨items, none, .idle, 0⟩
+def Sys.init (items : List (ι × μ)) : Sys ι μ := ⟨items, [], .idle, 0⟩
 
-/-- What the subscriber holds: its seed with the include-filtered received events folded in. -/
 def subView (p : Option (Pred ι μ)) (seed : List (ι × μ)) (recv : List (Change ι μ)) : View ι μ :=
   fold (recv.filterMap (includeChange p)) (viewOf seed)
 
